@@ -10,6 +10,11 @@ from . import c06
 LEVEL = "other"
 
 
+DOCUMENTED_ARGS = ("filename", "output", "delimiter_start", "delimiter_end", "time_limited_tag_name", "time_limited_time_offset",
+                   "time_limited_current", "removal_marker_tag_name", "removal_marker_target_name", "removal_marker_target_config",
+                   "list", "list_all", "list_json")
+
+
 def _loader_loop_form(P, lb):
     """The explicit-loop spelling of `reader.lines().map_while(Result::ok).collect()`: one `for` over `<BufReader over the
     opened file>.lines()` whose body pushes the Ok payload unchanged onto the (initially empty) returned vector and leaves the
@@ -100,7 +105,7 @@ def run(ctx, res):
         tgv = cfg.fields["removal_marker_configuration"].fields.get("targets") if isinstance(cfg, A.Struct) and isinstance(cfg.fields.get("removal_marker_configuration"), A.Struct) else None
         tg = A.show(tgv) if tgv is not None else "?"
         from_file = d.get("is_some(args.removal_marker_target_config)")
-        want_src = {"args.removal_marker_target_name"} | ({"load_removal_marker_target_names(args.removal_marker_target_config.some)"} if from_file else set())
+        want_src = {"args.removal_marker_target_name"} | ({common.FILE_LINES} if from_file else set())
         got_src = common.collection_sources(tgv)
         if got_src == want_src:
             n_ok["targets"] += 1
@@ -194,18 +199,25 @@ def run(ctx, res):
     # value handed over is one collection built from the two sources (checked above through its sources)
     res.holds("C20.R2", fn, "target-set-type", "RemovalMarkerConfiguration.targets: HashSet<String> (by the library's type)")
     # file reader applies no transformation
-    lb = P.fn("load_removal_marker_target_names")
-    try:
-        lo = A.Interp(P, assume_ok=True).explore(lambda J: J.call_fn_body(lb, [A.Sym("filename")]))
-        lt = A.show(lo[0]["value"]) if len(lo) == 1 else "?"
-    except A.Cannot as e:
-        lt = "? (%s)" % e
-    if lt == "std::io::BufReader::new(std::fs::File::open(filename).ok).lines().map_while(fn std::result::Result::ok).collect()":
-        res.holds("C20.R2", fshort(lb), "file-reader", "lines().map_while(Result::ok).collect()")
-    elif _loader_loop_form(P, lb):
-        res.holds("C20.R2", fshort(lb), "file-reader", "for line in reader.lines(): Ok(name) => push(name), Err => break")
+    lb = P.fn("load_removal_marker_target_names", required=False)
+    if lb is None:
+        # the reader is written in place in main: the target-set rule above accepted it only in the spelling
+        # BufReader::new(File::open(<config>)).lines().map_while(Result::ok)
+        res.holds("C20.R2", fn, "file-reader", "in place: lines().map_while(Result::ok)")
     else:
-        res.add(Finding("C20.R2", fshort(lb), "file-reader", "the target config reader is `%s`; one name per line requires exactly lines() with no transformation" % lt[:200], loc=T.loc(lb["tree"])))
+        try:
+            lo = A.Interp(P, assume_ok=True).explore(lambda J: J.call_fn_body(lb, [A.Sym("filename")]))
+            lt = A.show(lo[0]["value"]) if len(lo) == 1 else "?"
+        except A.Cannot as e:
+            lt = "? (%s)" % e
+        if lt in ("std::io::BufReader::new(std::fs::File::open(filename).ok).lines().map_while(fn std::result::Result::ok).collect()",
+                  # the same prefix of Ok lines, spelled with take_while + unwrap
+                  "std::io::BufReader::new(std::fs::File::open(filename).ok).lines().take_while(fn std::result::Result::is_ok).map(fn std::result::Result::unwrap).collect()"):
+            res.holds("C20.R2", fshort(lb), "file-reader", "lines().map_while(Result::ok).collect()")
+        elif _loader_loop_form(P, lb):
+            res.holds("C20.R2", fshort(lb), "file-reader", "for line in reader.lines(): Ok(name) => push(name), Err => break")
+        else:
+            res.add(Finding("C20.R2", fshort(lb), "file-reader", "the target config reader is `%s`; one name per line requires exactly lines() with no transformation" % lt[:200], loc=T.loc(lb["tree"])))
     c06.cli_target_default(ctx, res, "C20.R2b")
     # R7 defaults table
     _, table = common.cli_arg_table(ctx)
@@ -216,12 +228,16 @@ def run(ctx, res):
                 res.holds("C20.R7", "cli::Args", "default:" + arg, repr(want[arg]))
             else:
                 res.add(Finding("C20.R7", "cli::Args", "default:" + arg, "--%s has default %s, the documented default is %r" % ((ent["long"] or [arg])[0], ent["defaults"], want[arg]), loc=ent["loc"]))
-        else:
+        elif arg in DOCUMENTED_ARGS:
             if ent["defaults"]:
                 res.add(Finding("C20.R7", "cli::Args", "default:" + arg, "--%s has a default %s although none is documented: option defaults must contribute no behaviour" % ((ent["long"] or [arg])[0], ent["defaults"]), loc=ent["loc"]))
             else:
                 res.holds("C20.R7", "cli::Args", "default:" + arg, "none")
-    res.floor("C20.R7", "clap arguments", len(table), 13)
+        else:
+            # an option the documentation of the property does not know (added later): what it may influence is decided by the
+            # wiring rules R1-R6 (the values handed to the library) - its mere existence changes nothing
+            res.info.append("C20.R7: option --%s is not one of the documented options (default %s)" % ((ent["long"] or [arg])[0], ent["defaults"]))
+    res.floor("C20.R7", "documented clap arguments", len([a_ for a_ in table if a_ in DOCUMENTED_ARGS]), 13)
     # long option names (documented spellings)
     for arg, ent in sorted(table.items()):
         if ent["long"] and set(ent["long"]) != {arg.replace("_", "-")}:
@@ -231,9 +247,12 @@ def run(ctx, res):
     # (value_delimiter splits at commas, env reads the environment, num_args / value_terminator change grouping,
     # ignore_case / default_missing_value / allow_hyphen_values / require_equals change what is accepted)
     benign = {"action", "value_parser", "value_name", "long", "short", "long_help", "help", "required", "default_value", "id",
-              "help_heading", "display_order", "hide", "next_line_help", "visible_alias", "visible_short_alias"}
+              "help_heading", "display_order", "hide", "next_line_help", "visible_alias", "visible_short_alias", "alias", "aliases",
+              "visible_aliases", "short_alias", "hide_default_value", "hide_possible_values", "hide_short_help", "hide_long_help"}
     n9 = 0
     for arg, ent in sorted(table.items()):
+        if arg not in DOCUMENTED_ARGS:
+            continue
         extra = sorted(set(ent["methods"]) - benign)
         n9 += 1
         if extra:
